@@ -131,9 +131,7 @@ func run(o *Options) int {
 			bad++
 			continue
 		}
-		ex := NewExec(ctx, fn, sp.Funcs[key], o.Safety)
-		ex.canaries = true
-		ex.Verify()
+		ex := VerifyFunc(ctx, fn, sp.Funcs[key], o.Safety, true)
 		if o.Only != "" {
 			var keep []*Obligation
 			for _, ob := range ex.obls {
